@@ -120,7 +120,9 @@ def run(ctx) -> None:
         floor=3,
     )
     RE = ctx.rule("C05/unschedule-all-empties-the-registry", "on every normal path unschedule_all() empties the handler registry wholesale (clear / fresh container / a loop over the registry's own keys): every handler it is documented to detach is gone when it returns", floor=1)
-    cfg = ThreadCfg(P, no_inline={"join", "is_alive", "dispatch", "queue_events", "BaseThread.start"}, follow_attrs=False)
+    # fault model of the must-effect analysis: join() of a thread that was never started raises RuntimeError (an emitter scheduled on an
+    # observer that is not running)
+    cfg = ThreadCfg(P, no_inline={"join", "is_alive", "dispatch", "queue_events", "BaseThread.start"}, follow_attrs=False, raising={r".*\.join": "RuntimeError"})
     registry_emptied(ctx, RE, P, cfg)
     res, npaths = guarded_by(P, "BaseObserver", FIELDS, "self._lock", [e for e in observer_entries(P, "BaseObserver") if e not in ("__init__",)], cfg)
     ctx.count("paths", npaths)
@@ -189,6 +191,7 @@ def run(ctx) -> None:
                 stopped = joined = False
                 order_ok = True
                 cleared = False
+                left: list = []
                 for e in p.evs:
                     if e.kind == "call" and re.fullmatch(r"self\._emitters\.(clear|difference_update|intersection_update)", e.extra.get("func", "")):
                         cleared = True
@@ -202,13 +205,19 @@ def run(ctx) -> None:
                     body = e.extra["paths"]
                     bs = all(any(x.kind == "call" and re.fullmatch(r"\$elem\(.*\)\.stop", x.extra.get("func", "")) for x in b.evs) for b in body if b.outcome in (NORMAL, ("continue",)))
                     bj = all(any(x.kind == "call" and re.fullmatch(r"\$elem\(.*\)\.join", x.extra.get("func", "")) for x in b.evs) for b in body if b.outcome in (NORMAL, ("continue",)))
+                    # a failure for one emitter must be absorbed inside its own iteration: absorbed further out, it has already ended the loop
+                    esc = [b for b in body if b.outcome[0] == "raise" and any(x.kind == "call" and re.fullmatch(r"\$elem\(.*\)\.(join|stop)", x.extra.get("func", "")) for x in b.evs)]
+                    if esc:
+                        left.append(f"{esc[0].outcome[1]} from the {'join' if any('.join' in x.extra.get('func', '') for x in esc[0].evs if x.kind == 'call') else 'stop'}() of one emitter leaves the loop over the emitters: the emitters after it are skipped")
                     if bs and body:
                         stopped = True
                     if bj and body:
                         if not stopped:
                             order_ok = False
                         joined = True
-                if not stopped:
+                if left:
+                    ok, msg = False, f"on a normal path of {what}: {left[0]} (a never-started emitter raises RuntimeError on join(); one that comes first in the set leaves a running emitter of a removed watch alive and queueing events)"
+                elif not stopped:
                     ok, msg = False, f"a normal path of {what} does not call stop() on every emitter"
                 elif not joined:
                     ok, msg = False, f"a normal path of {what} does not join every emitter after stopping it"
